@@ -61,7 +61,16 @@ pub fn run(ctx: &mut Ctx) {
     let cache = sorted_cache(&is);
     let draws = ctx.n(30, 600);
     let mut case: u64 = 0;
-    let lists: Vec<Vec<String>> = vec![vec![], vec!["INTEGER.+".to_string()], names.clone()];
+    // instruction lists: none, one, the whole registry, a few fixed small ones (with and without NOOP /
+    // EXEC.CMD, the two names the generator treats specially) and random sublists of the registry
+    let mut lists: Vec<Vec<String>> = vec![vec![], vec!["INTEGER.+".to_string()], names.clone(), vec!["EXEC.CMD".to_string()], vec!["INTEGER.+".to_string(), "EXEC.CMD".to_string(), "NAME.DUP".to_string()], vec!["NOOP".to_string(), "CODE.QUOTE".to_string()]];
+    {
+        let mut r = Rng::derive(ctx.seed, &[12, 4]);
+        for _ in 0..4 {
+            let n = 2 + r.below(5);
+            lists.push((0..n).map(|_| r.pick(&names).clone()).collect());
+        }
+    }
     let bindsets: Vec<Vec<&str>> = vec![vec![], vec!["only"], vec!["a", "b", "c"], vec!["two words", "x y z"]];
     // (1) exact size
     let mut sizes: Vec<usize> = (1..=80).collect();
